@@ -22,6 +22,9 @@ FAMILIES = {
     "nesting": {"model": _STACK_MODEL, "spec": _STACK_SPEC},
     "policy": {"model": _STACK_MODEL, "spec": _STACK_SPEC},
     "awkward": {"spec": {"imports": "Base AwkCorr", "type": "acase", "fn": "acheck"}},
+    "roreflect": {"spec": {"imports": "Base AwkCorr", "type": "acase", "fn": "acheck"}, "methods_crosscheck": True},
+    "queryreflect": {"spec": {"imports": "Base AwkCorr", "type": "acase", "fn": "acheck"}, "methods_crosscheck": True},
+    "zeroreflect": {"spec": {"imports": "Base AwkCorr", "type": "acase", "fn": "acheck"}, "methods_crosscheck": True},
     "transfer": {"model": {"imports": "Base StackImpl StackSpecCorr TransferCorr TransferCorrM", "type": "tcase", "fn": "tcheck_model"},
                  "spec": {"imports": "Base StackSpec StackSpecCorr TransferCorr", "type": "tcase", "fn": "tcheck_spec"}},
 }
@@ -37,6 +40,18 @@ PROPS = {
             "level_text": "Index part proved: every history with arbitrary Go-int indices (MinInt/MaxInt included) runs without Panic in the regenerated raw-slot model and never reads or overwrites the configuration slot; non-addressing indices make Index/Remove/Replace/Swap fail with the state untouched; -k / oversize indices address what the options promise. Value part: panics on awkward Go values live in reflect and cannot be proved over a model of Go; it is decided by the exhaustive awkward-value family (24 methods x 52 values x receiver states + observer battery) and, for the two alias converters, by the theorems of C12.",
             "technique": "Coq proof over the regenerated index/guard fragments (all ints) + exhaustive boundary sweep and awkward-value differential families",
             "assumptions": ["the value part (arbitrary Go values through reflect) is covered by exhaustive enumeration of a 52-value catalogue, not by a theorem"]},
+    "C09": {"props_file": "Props/C09.v", "families": ["roreflect"], "design_ref": "DESIGN.md §8 C09",
+            "level_text": "Static leg: the translator regenerates a guard IR of EVERY function of the package; Guard.v gives it a trace semantics and a summary-based analysis proved sound in Coq; theorem c09_ro_no_write_every_method applies it to every exported method in the source now (new methods included) on an initialised read-only receiver: no store into the receiver on any path, exceptions SetReadOnly/ReadOnly/SetErr/Init only. Model leg: every mutator of the list model is a no-op under read-only and clearing the flag restores the exact state. Dynamic leg: every method found by reflection x argument variants x read-only receivers, deep hidden-state snapshots (VerifDump) identical; the reflected method set must equal the translator's table.",
+            "technique": "Coq-proved static analysis over a guard IR regenerated from the source + model frame theorems + reflection-driven differential check",
+            "assumptions": ["calls leaving the package and user closures (EExt) are assumed not to write into the receiver", "the translator's classification of stores (which assignments go through the receiver) is trusted; cross-checked by the deep-snapshot family"]},
+    "C11": {"props_file": "Props/C11.v", "families": ["queryreflect"], "design_ref": "DESIGN.md §8 C11",
+            "level_text": "Partial: purity is decided (static theorem c11_queries_no_write_no_lock over the regenerated guard IR for every exported method not in the declared mutator list: no store into the receiver or any nested object and no lock operation on any path; model theorems: a query returns the state it was given and the same answer when repeated; dynamic deep-snapshot family incl. freshness of the Unmarshal slice). 'Without a data race' follows from the absence of writes on query paths at the granularity of the IR's store events; the Go memory model itself is outside the model.",
+            "technique": "Coq-proved static analysis over a regenerated guard IR + model frame theorems + reflection-driven differential check",
+            "assumptions": ["user closures and foreign String methods are assumed pure", "race-freedom is argued from 'no writes on any query path'; the Go memory model and scheduler are not modelled (partial)"]},
+    "C17": {"props_file": "Props/C17.v", "families": ["zeroreflect"], "design_ref": "DESIGN.md §8 C17",
+            "level_text": "Static theorem c17_zero_inert_every_method over the regenerated guard IR: for every exported method in the source now (except Marshal and Condition.Init) no path on a zero/freed receiver dereferences the nil embedded pointer or the missing configuration record, and none stores into the receiver; nil Auxiliary methods do not dereference. Reset keeps the configuration record and empties the content (nil elements included). Dynamic leg: every method found by reflection x argument variants x {zero, freed, Init()-only Condition, nil Auxiliary}: no panic, zero results, IsZero/IsInit unchanged.",
+            "technique": "Coq-proved static analysis over a regenerated guard IR + reflection-driven differential check",
+            "assumptions": ["panics other than nil dereference of the embedded pointer / configuration record are covered by the dynamic family only"]},
     "C13": {"props_file": "Props/C13.v", "families": ["nesting"], "design_ref": "DESIGN.md §8 C13",
             "level_text": "Theorems c13_*: with the option on Push stores exactly the non-Stack values (in order, up to capacity); switching never touches elements; CanNest = option off = a pushed Stack would be stored; IsNesting = some element is a Stack/alias; in every reachable state.",
             "technique": "Coq proof over the regenerated list model + differential correspondence check (native/alias/pointer-to-alias values)"},
